@@ -13,6 +13,7 @@ from __future__ import annotations
 
 import ast
 import os
+import re
 
 PREFIXES = ("_insert_", "_add_", "add_", "get_or_add_", "get_or_change_to_", "_remove_", "_new_")
 
@@ -171,6 +172,33 @@ def named_identifiers(src_root: str) -> dict[str, list[str]]:
                 if nm:
                     seen.setdefault(nm, []).append("%s:%d" % (rel, getattr(node, "lineno", 0)))
     return seen
+
+
+def handwritten_sites(src_root: str) -> list[str]:
+    """Call sites outside xmlchemy.py that place an element by hand (lxml append/insert/addprevious/addnext, or
+    insert_element_before with literal successors). Name-based, over-approximate (list.append/insert are caught too when
+    the receiver is not an obvious list literal); listed in the evidence, judged by C03's XSD monitor, not here."""
+    out = []
+    for dp, _, fns in os.walk(src_root):
+        for fn in sorted(fns):
+            p = os.path.join(dp, fn)
+            if not fn.endswith(".py") or p.endswith(os.path.join("oxml", "xmlchemy.py")):
+                continue
+            try:
+                tree = ast.parse(open(p, encoding="utf-8").read())
+            except SyntaxError:
+                continue
+            rel = os.path.relpath(p, src_root)
+            for node in ast.walk(tree):
+                if isinstance(node, ast.Call) and isinstance(node.func, ast.Attribute):
+                    a = node.func.attr
+                    if a in ("addprevious", "addnext", "insert_element_before"):
+                        out.append("%s:%d %s" % (rel, node.lineno, a))
+                    elif a in ("append", "insert"):
+                        recv = ast.unparse(node.func.value)
+                        if rel.split(os.sep)[0] == "oxml" or re.search(r"spTree|_element|_elm|grpSp|txBody|[a-z]Lst\b|xChart|plotArea", recv):
+                            out.append("%s:%d %s.%s" % (rel, node.lineno, recv[:40], a))
+    return sorted(out)
 
 
 def entry_points(decl: dict) -> list[str]:
